@@ -162,11 +162,12 @@ PROPS = {
              "caller consumed exactly the reply's bytes. Every hop of a closure call (argument to the implementation, closure argument back to the caller, closure result, final result) and the output "
              "of a returned future is compared with the projection through min(i,j). Plus a hand-written interface family for methods present on one side only (also in "
              "a nested Box<dyn Trait> interface) and seven incompatible signature changes (argument count/type, return type, closure argument/return type, boxed closure "
-             "return type, future output type) that must be rejected at connection time. "
+             "return type, future output type) that must be rejected at connection time, and a pair of #[repr(C)] definitions whose versions have structurally identical memory layouts "
+             "with different field meaning (must be seen through the negotiated version, not through a raw pointer). "
              "distinct_nontrivial = distinct (family, i, j, method, value-class).",
         runs=dict(quick=[dict(build="release", crate="vabi", shards=8), dict(build="debug", crate="vabi", shards=4), dict(build="miri", crate="vabi", shards=13, timeout=900)],
                   thorough=[dict(build="release", crate="vabi", shards=16), dict(build="debug", crate="vabi", shards=16), dict(build="miri", crate="vabi", shards=16, timeout=3000)]),
-        required_counters=dict(quick=dict(arguments_as_expected=500, returns_as_expected=500, cross_version_pairs=10, reply_hook_events=500, incompatible_signature_rejected=7, missing_method_panics_with_name=2, closure_hops_as_expected=100, future_outputs_as_expected=100, returned_closures_as_expected=100)),
+        required_counters=dict(quick=dict(arguments_as_expected=500, returns_as_expected=500, cross_version_pairs=10, reply_hook_events=500, incompatible_signature_rejected=7, missing_method_panics_with_name=2, closure_hops_as_expected=100, future_outputs_as_expected=100, returned_closures_as_expected=100, aliasing_layouts_seen_through_negotiated_version=50)),
         fresh_zoo=True,
     ),
     "C13": dict(
